@@ -92,7 +92,7 @@ def classify_c16(shape, why):
         m = shape.methods[mi]
     except (ValueError, IndexError):
         return None
-    if m.receiver == "mut" and m.form != "none" and "ran 0 times" in why and "cannot be unmocked" in why:
+    if m.receiver in ("mut", "pin") and m.form != "none" and "ran 0 times" in why and "cannot be unmocked" in why:
         return "F2:mut-self-unmock-fn-registered"
     return None
 
@@ -113,12 +113,14 @@ def run_c16(ctx):
         feats[f"api_{s.api}"] = feats.get(f"api_{s.api}", 0) + 1
         if s.skipped_at:
             feats["with_skipped_fn"] = feats.get("with_skipped_fn", 0) + 1
+        if s.provided:
+            feats["with_provided_method"] = feats.get("with_provided_method", 0) + 1
         for m in s.methods:
             for k in (f"form_{m.form}", f"receiver_{m.receiver}", f"async_{m.asyncness}", f"reenter_{m.reenter}",
                       f"arity_{len(m.params)}"):
                 feats[k] = feats.get(k, 0) + 1
     for k in ["form_path", "form_params", "form_none", "async_async_fn", "reenter_True", "with_skipped_fn",
-              "api_hidden", "methods_4"]:
+              "api_hidden", "methods_4", "receiver_pin", "receiver_mut", "with_provided_method"]:
         ctx.require(feats.get(k, 0) > 0, f"no unmock shape with {k}")
     n_calls = sum(len(e["calls"]) for e in exps.values())
     ctx.coverage.update({
@@ -285,26 +287,35 @@ def run_c17(ctx):
     owned_only = [t for t in accepted if not retgen.has_ref(t)]
     n = RET_BUDGET[ctx.tier]
     cases = []
+    # first: every reference-carrying type that can hold an owned leaf, with a value that does hold one, on the
+    # single-use paths (the second request must be refused) - rotated by the seed
+    ownable = [t for t in with_ref if retgen.can_own(t)]
+    for j, t in enumerate(ownable):
+        c = retgen.Counter()
+        v = retgen.gen_value(t, rng, c, force="owned")
+        cases.append((t, v, ["some", "once", "some", "n2"][(j + ctx.seed) % 4], False))
     k = 0
-    while len(cases) < n:
+    while len(cases) < n + len(ownable):
         # reference-carrying types dominate; every accepted one is visited in turn
         t = with_ref[k % len(with_ref)] if k % 4 != 3 else owned_only[(k // 4) % len(owned_only)]
         c = retgen.Counter()
         force = "first" if (k // len(with_ref)) % 3 == 0 else None
         v = retgen.gen_value(t, rng, c, force=force)
         mode = retgen.MODES[(k + k // len(with_ref)) % 4]
-        cases.append((t, v, mode))
+        # every fifth reference-carrying case ties its borrows to self through a named lifetime
+        named = retgen.has_ref(t) and "static_str" not in json.dumps(t) and k % 5 == 2
+        cases.append((t, v, mode, named))
         k += 1
     modules, exps = [], {}
-    for i, (t, v, mode) in enumerate(cases):
-        text, exp = retgen.render(t, v, mode, i)
+    for i, (t, v, mode, named) in enumerate(cases):
+        text, exp = retgen.render(t, v, mode, i, named_lifetime=named)
         modules.append((i, text))
         exps[i] = exp
     events, errors, st = engine_b.build_and_run(ctx, "returns", modules, per_crate=60)
     checked = 0
     feats = {}
-    for i, (t, v, mode) in enumerate(cases):
-        key = json.dumps([t, v, mode])
+    for i, (t, v, mode, named) in enumerate(cases):
+        key = json.dumps([t, v, mode, named])
         if i in errors:
             ctx.violation(f"retgen:expansion-error:{json.dumps(t)}", {
                 "what": "a return type of the calibrated accepted set no longer compiles", "at": f"case {i}",
@@ -317,10 +328,11 @@ def run_c17(ctx):
                                             "case": f"fn m(&self) -> {exps[i]['type']} configured {mode} with {exps[i]['value']}",
                                             "expected": json.dumps(exps[i]), "observed": json.dumps(events.get(i, []))[:800]})
         for f in [f"mode_{mode}", f"top_{t[0]}", "with_ref" if retgen.has_ref(t) else "owned_only",
+                  "named_self_lifetime" if named else "elided_lifetime",
                   "owned_leaf_in_value" if exps[i]["owned_leaves"] else "borrowed_only_value"]:
             feats[f] = feats.get(f, 0) + 1
     for f in ["mode_some", "mode_each", "mode_once", "mode_n2", "top_opt", "top_res", "top_vec", "top_poll", "top_tup",
-              "with_ref", "owned_only", "owned_leaf_in_value", "borrowed_only_value"]:
+              "with_ref", "owned_only", "owned_leaf_in_value", "borrowed_only_value", "named_self_lifetime"]:
         ctx.require(feats.get(f, 0) > 0, f"no return case with {f}")
     ctx.coverage.update({
         "evaluations": checked,
